@@ -182,6 +182,9 @@ func (s *EnumSummary) Coverage(rule string) map[string]interface{} {
 	}
 }
 
+// enumFuncs: optional scenario plans (full nodes, clusters) of checks registered with enumCheck.
+var enumFuncs = map[string]func(q bool) *FuncPlan{}
+
 // enumCheck registers a check made of enumeration plans (and optionally a schedule plan).
 func enumCheck(id, level string, plans func(q bool) []*EnumPlan, sched func(q bool) *SchedPlan, rule string, assumptions []string) {
 	Registry[id] = func(c *Ctx) int {
@@ -190,7 +193,14 @@ func enumCheck(id, level string, plans func(q bool) []*EnumPlan, sched func(q bo
 		if sched != nil {
 			sp = sched(c.Quick())
 		}
+		var fp *FuncPlan
+		if f := enumFuncs[id]; f != nil {
+			fp = f(c.Quick())
+		}
 		if c.Worker >= 0 {
+			if fp != nil && fp.find(c.Scen) != nil {
+				return fp.Worker(c)
+			}
 			if sp != nil && sp.find(c.Scen) != nil {
 				return sp.Worker(c)
 			}
@@ -225,6 +235,17 @@ func enumCheck(id, level string, plans func(q bool) []*EnumPlan, sched func(q bo
 			cov["samples"] = append(cov["samples"].([]interface{}), sc["samples"].([]interface{})...)
 			cov["exhaustive"] = sc["exhaustive"]
 			viol += sr.Violations
+		}
+		if fp != nil {
+			fr := fp.Master(c)
+			if fr.EngineErr != "" {
+				return EngineError("%s", fr.EngineErr)
+			}
+			viol += fr.Violations
+			cov["scenario_exploration"] = fp.Coverage(fr, "deviation-bounded schedule DFS of scenarios on real node copies", c.Quick())
+			if n, ok := cov["evaluations"].(int); ok {
+				cov["evaluations"] = n + int(fr.Total.Executions)
+			}
 		}
 		c.ReportKnown(sum.KnownHits)
 		c.WriteEvidence(level, cov, assumptions, viol)
